@@ -56,21 +56,26 @@ Tok(k, v) == [k |-> k, v |-> v]
 Cons(tok, rest) == IF tok.k = "BODY" /\ rest # <<>> /\ rest[1].k = "BODY"
                    THEN <<Tok("BODY", tok.v \o rest[1].v)>> \o Tail(rest) ELSE <<tok>> \o rest
 
-RECURSIVE Scan(_, _)
-Scan(text, i) ==
+\* tops: the allowed top-level names (the properties of the context the template is evaluated in)
+RECURSIVE ScanT(_, _, _)
+ScanT(text, i, tops) ==
   IF i > Len(text) THEN <<>>
-  ELSE IF text[i] # "at" THEN Cons(Tok("BODY", <<text[i]>>), Scan(text, i + 1))
+  ELSE IF text[i] # "at" THEN Cons(Tok("BODY", <<text[i]>>), ScanT(text, i + 1, tops))
   ELSE IF i = Len(text) THEN <<Tok("BODY", <<"at">>)>>
-  ELSE IF text[i + 1] = "at" THEN Cons(Tok("BODY", <<"at">>), Scan(text, i + 2))          \* @@ -> @
+  ELSE IF text[i + 1] = "at" THEN Cons(Tok("BODY", <<"at">>), ScanT(text, i + 2, tops))          \* @@ -> @
   ELSE IF text[i + 1] = "lp" THEN
          LET e == ExprEnd(text, i + 2, 1) IN
          IF e = 0 THEN <<Tok("BODYX", SubSeq(text, i, Len(text)))>>                           \* unterminated: the rest is returned verbatim (no @@ unescaping)
-         ELSE <<Tok("EXPR", SubSeq(text, i + 2, e - 1))>> \o Scan(text, e + 1)
+         ELSE <<Tok("EXPR", SubSeq(text, i + 2, e - 1))>> \o ScanT(text, e + 1, tops)
   ELSE IF NameChar(text[i + 1]) THEN
          LET e == IdentEnd(text, i + 1) IN
-         IF TopLevel(text, i + 1, e) = <<"a">> THEN <<Tok("IDENT", SubSeq(text, i + 1, e))>> \o Scan(text, e + 1)
-         ELSE Cons(Tok("BODY", SubSeq(text, i, e)), Scan(text, e + 1))                        \* not an allowed top-level: literal
-  ELSE Cons(Tok("BODY", <<"at", text[i + 1]>>), Scan(text, i + 2))
+         IF TopLevel(text, i + 1, e) \in tops THEN <<Tok("IDENT", SubSeq(text, i + 1, e))>> \o ScanT(text, e + 1, tops)
+         ELSE Cons(Tok("BODY", SubSeq(text, i, e)), ScanT(text, e + 1, tops))                        \* not an allowed top-level: literal
+  ELSE Cons(Tok("BODY", <<"at", text[i + 1]>>), ScanT(text, i + 2, tops))
+
+\* the contexts of the checks have one allowed name, `a`; a context without any property allows none: every @name is literal
+Scan(text, i) == ScanT(text, i, {<<"a">>})
+Scan0(text, i) == ScanT(text, i, {})
 
 \* a template with no expression at all evaluates to its body tokens
 OnlyBody(ts) == \A i \in DOMAIN ts : ts[i].k = "BODY"
